@@ -161,6 +161,8 @@ def main(tier, seed, replay=None):
             has_nl = any(t.nl for t in s.tokens)
             if not (has_v or has_nl):
                 continue
+            if tier != 'quick' and hash(s.key()) % 4 != seed % 4:
+                continue        # (thorough themes are ~15 times larger)
             if tier == 'quick' and not (has_v and has_nl) and \
                     hash(s.key()) % 4:
                 continue
